@@ -4,6 +4,7 @@ import (
 	"bufio"
 	"encoding/json"
 	"fmt"
+	"golang.org/x/tools/go/ssa"
 	"os"
 	"path/filepath"
 	"sort"
@@ -48,6 +49,8 @@ type Ctx struct {
 	// reviewed exceptions (key -> reason); obligations listed here are reported as
 	// "assumed" (counted separately, not covered by the claim)
 	seen map[string]*Obligation
+	// anchor resolution is memoised: an unresolved anchor is reported once
+	anchorMemo map[string]*ssa.Function
 }
 
 func newCtx(p *Program, prop, tier string) *Ctx {
@@ -99,8 +102,9 @@ type Finding struct {
 }
 
 // known-findings.txt lines:
-//   open: property=C06 key=<rule|func|construct> :: <what fails>
-//   fixed: property=C05 <commit> <what failed>
+//
+//	open: property=C06 key=<rule|func|construct> :: <what fails>
+//	fixed: property=C05 <commit> <what failed>
 func loadFindings(path string) ([]Finding, error) {
 	f, err := os.Open(path)
 	if err != nil {
